@@ -149,4 +149,39 @@ PROPS = {
         {"quick": {"_runs": 400, "logout-redirect": 2000, "logout-rejected": 4000, "redirect-to-registered": 800, "expired-hint-accepted": 300}, "thorough": {"_runs": 20000}},
         "Seeded exploration; a redirect goes to the default URI or to a URI registered for the client proven by a validly signed hint (or client_id); invalid hints and contradictions are rejected; expired valid hints are accepted; the journal shows the hint's subject and client being terminated; state arrives unchanged.",
         "DESIGN.md section 4 C18"),
+    "C17": flow(
+        "W-flows",
+        "deterministic simulation: seeded interleavings of several login attempts of one real relying party (cookie handler, PKCE on/off) in two browsers, with attacker-crafted callbacks (missing, foreign-instance, swapped, truncated, bit-flipped, replayed and stale cookies); oracle over the simulated network log",
+        "one evaluation = one seeded world (router, PKCE, cookie max-age, auth style) running 30-70 steps: start a login through rp.AuthURLHandler, deliver a callback in one of 16 variants, advance the clock past the cookie age. "
+        "non-trivial = at least one callback led to a token request and one was refused; distinct = distinct step history",
+        {"runs": 100, "wall": 60}, {"runs": 40000, "wall": 1200},
+        {"quick": {"_runs": 1500, "code-sent-to-provider": 2000, "callback-refused": 15000, "honest-login-completed": 800, "attempt-started": 15000}, "thorough": {"_runs": 100000}},
+        "Seeded exploration; a token-endpoint request from the RP implies the callback's state equals the plaintext of a state cookie this RP instance signed and presented by that browser, and the verifier sent equals the pkce cookie whose S256 went into the authorization URL; refusals run the unauthorized handler and send nothing.",
+        "DESIGN.md section 4 C17"),
+    "C06": flow(
+        "W-flows",
+        "deterministic simulation: every token response of seeded multi-flow runs (code, implicit, refresh, device, client_credentials, jwt-bearer, token-exchange) under rotating keys, clock skew and a frozen clock is re-verified with the library's own verifiers and compared with the stored grant",
+        "one evaluation = one seeded world (router, one of 8 signing algorithms, per-client token type/skew/lifetime/assertion flag, colliding custom claims) running 25-50 steps over 7 flows plus key rotation and clock advance. "
+        "non-trivial = id tokens and access tokens were both checked; distinct = distinct step history",
+        {"runs": 40, "wall": 90}, {"runs": 8000, "wall": 1200},
+        {"quick": {"_runs": 400, "id-tokens-checked": 8000, "access-tokens-checked": 8000}, "thorough": {"_runs": 20000}},
+        "Seeded exploration with exact-time oracles (the simulated clock is frozen during a request): signing key, rp.VerifyTokens against the published JWKS over simnet, iss/aud/azp/sub/nonce/auth_time/amr, iat and exp equalities, at_hash/c_hash, user claims only for granted scopes, opaque tokens decrypt only with the provider key, expires_in/scope equal the stored values.",
+        "DESIGN.md section 4 C06"),
+    "C14": flow(
+        "W-flows",
+        "deterministic simulation: seeded assertions (iss, sub, aud, iat, exp on clock boundaries, kid, signing key) presented as jwt-bearer grant and as client authentication at four endpoints, signed request objects, and the library's own client helpers, against the real provider",
+        "one evaluation = one seeded world running 40-80 steps: generated assertion x 5 surfaces, request object with 0-2 deviations, helper interop (profile, rs, tokenexchange, rp), clock advance. non-trivial = assertions were both accepted and refused",
+        {"runs": 40, "wall": 90}, {"runs": 8000, "wall": 1200},
+        {"quick": {"_runs": 400, "assertion-accepted": 2000, "assertion-refused": 5000, "helper-assertions-accepted": 1500, "request-object-honoured": 300, "request-object-not-honoured": 3000}, "thorough": {"_runs": 20000}},
+        "Seeded exploration; accepted assertions must be valid in the reference model for the client named as issuer (key, audience, times outside a 2 s band, sub=iss) and the authenticated identity equals the issuer; request-object parameters take effect only for valid objects; helper-made assertions are accepted.",
+        "DESIGN.md section 4 C14"),
+    "C11": flow(
+        "W-flows",
+        "deterministic simulation of the three-party pipeline (provider encodes, user agent decodes query / fragment / auto-submit form, relying party consumes) with seeded hostile parameter values; conservation oracle",
+        "one evaluation = one seeded world (router, RP response mode, session state on/off) running 30-60 steps: raw authorization (success or error) with generated state/nonce x response type x mode x redirect URI shape, or a complete login through the real relying party. "
+        "The values are seeded generation over Unicode and ASCII punctuation; only the pipeline is simulation. non-trivial = responses were decoded and the RP pipeline ran",
+        {"runs": 40, "wall": 90}, {"runs": 8000, "wall": 1200},
+        {"quick": {"_runs": 400, "responses-decoded": 8000, "mode-form_post": 1500, "mode-fragment": 3000, "mode-query": 3000, "pipeline-completed": 3000}, "thorough": {"_runs": 20000}},
+        "Seeded exploration; what the user agent decodes equals what the provider produced and the client sent (code, state, session_state, tokens, error, description), pre-existing query parameters survive, the form has exactly the expected DOM, and fault-free logins complete at the relying party.",
+        "DESIGN.md section 4 C11"),
 }
